@@ -70,7 +70,7 @@ add("C19", "exploration",
     "Only arities up to 3x3 and the attribute combinations listed. A macro defect that breaks compilation for some arity makes the whole harness build fail (reported as inconclusive, as happened for 3 inputs before the fix).",
     "runtime monitoring: per-call conservation oracle over hook events for harness-defined derived blocks", "3/C19", "drip-feed")
 add("C15", "exploration",
-    "Every call runs inside catch_unwind and an Again without any stream event is re-called 64 times (spin). Inputs: all 42 catalogue blocks under drip-feed schedules with floats that mix NaN, +-inf, denormals, huge values and random bit patterns; HdlcDeframer (min/max incl. 0,1,2; checksum and fix-bits on/off), RtlSdrDecode and AuDecode with arbitrary bytes; StreamToPdu with arbitrary tag sequences (starts/ends in any order, duplicates, wrong value types); exhaustive AU header mutations (47 data offsets incl. 0..40, 2^31, 2^32-1 x 7 encodings x 4 rates x 4 channel counts, truncations 0..28, one-shot and chunked); SigMF recordings with hostile metadata (type confusion, missing keys, huge/negative numbers, non-JSON) and archives (wrong entry types, duplicate members, non-UTF-8 names, sparse, empty base name, truncated, byte-corrupted); all bursts of length 0..6 (quick) / 0..8 (thorough) over {-1,0,1,NaN,+inf} through Midpointer and Wpcr; packets of length 0..8 through VecToStream. The thorough tier repeats the workload in an AddressSanitizer build.",
+    "Every call runs inside catch_unwind and an Again without any stream event is re-called 64 times (spin). Inputs: all 42 catalogue blocks under drip-feed schedules with floats that mix NaN, +-inf, denormals, huge values and random bit patterns; HdlcDeframer (min/max incl. 0,1,2; checksum and fix-bits on/off), RtlSdrDecode and AuDecode with arbitrary bytes; StreamToPdu with arbitrary tag sequences (starts/ends in any order, duplicates, wrong value types); exhaustive AU header mutations (47 data offsets incl. 0..40, 2^31, 2^32-1 x 7 encodings x 4 rates x 4 channel counts, truncations 0..28, one-shot and chunked); SigMF recordings with hostile metadata (type confusion, missing keys, huge/negative numbers, non-JSON) and archives (wrong entry types, duplicate members, non-UTF-8 names, sparse, empty base name, truncated, byte-corrupted); all bursts of length 0..6 (quick) / 0..8 (thorough) over {-1,0,1,NaN,+inf} through Midpointer and Wpcr; packets of length 0..8 through VecToStream. The thorough tier repeats the workload in an AddressSanitizer build. In child processes (an allocation failure aborts and cannot be caught): 2^24+1000 samples without a transition followed by a few transitions through SymbolSync (with and without clock output) and ZeroCrossing, and a one-million-sample burst with two transitions through Wpcr and Midpointer, under a 6 GiB address-space cap.",
     "A worker killed by SIGSEGV/SIGABRT/SIGBUS is reported as a violation by the driver; time-outs and other exits are inconclusive. IL2P and the descrambler are fed {0,1} only (they document/assert bit input).",
     "runtime monitoring: catch_unwind/spin oracle over structure-aware and exhaustive small inputs, AddressSanitizer build", "3/C15", "robustness")
 add("C17", "fault_enumeration",
